@@ -1438,4 +1438,66 @@ theorem init_runInv (cfg : Cfg) (hwf : cfg.WF) (P : Prop) (st0 : State) (h0 : Id
       subst h; rfl
   · cases timeout <;> rfl
 
+/-! ### consequences: the worker limit on live tasks -/
+
+theorem nodup_wids_of_slots (s : Nat) : ∀ l : List Worker, (l.map Worker.slot).Nodup →
+    ((l.filter (fun w => w.step == s)).map (·.wid)).Nodup
+  | [], _ => List.nodup_nil
+  | x :: xs, h => by
+    simp only [List.map_cons, List.nodup_cons] at h
+    have ih := nodup_wids_of_slots s xs h.2
+    simp only [List.filter_cons]
+    split
+    · rename_i hx
+      simp only [beq_iff_eq] at hx
+      simp only [List.map_cons, List.nodup_cons]
+      refine ⟨?_, ih⟩
+      intro hm
+      obtain ⟨y, hy, hyw⟩ := List.mem_map.mp hm
+      obtain ⟨hy1, hy2⟩ := List.mem_filter.mp hy
+      simp only [beq_iff_eq] at hy2
+      apply h.1
+      exact List.mem_map.mpr ⟨y, hy1, by simp [Worker.slot, hy2, hx, hyw]⟩
+    · exact ih
+
+/-- live workers of a step: at most `num_workers`, each on a slot below `num_workers` -/
+theorem RunInv.bounded {cfg : Cfg} {P : Prop} {r : Runner} (hwf : cfg.WF) (h : RunInv cfg P r) :
+    (∀ c ∈ cfg.steps, (r.running.filter (fun w => w.step == c.name)).length ≤ c.numWorkers) ∧
+      ∀ w ∈ r.running, w.wid < cfg.nw w.step := by
+  have hlt : ∀ w ∈ r.running, ∀ c ∈ cfg.steps, c.name = w.step → w.wid < c.numWorkers := by
+    intro w hw c hc hcn
+    obtain ⟨_, ip, hip, hwid, _⟩ := h.sub w hw
+    rw [← hcn] at hip
+    exact (h.ids c hc).2 w.wid (mem_usedIds.mpr ⟨ip, hip, hwid⟩)
+  refine ⟨?_, ?_⟩
+  · intro c hc
+    have hnd := nodup_wids_of_slots c.name r.running h.nodup
+    have hsub : (r.running.filter (fun w => w.step == c.name)).map (·.wid) ⊆ List.range c.numWorkers := by
+      intro i hi
+      obtain ⟨w, hw, rfl⟩ := List.mem_map.mp hi
+      obtain ⟨hw1, hw2⟩ := List.mem_filter.mp hw
+      simp only [beq_iff_eq] at hw2
+      exact List.mem_range.mpr (hlt w hw1 c hc hw2.symm)
+    have := List.Nodup.length_le_of_subset hnd hsub
+    simpa using this
+  · intro w hw
+    obtain ⟨hname, _⟩ := h.sub w hw
+    obtain ⟨c, hc, hcn⟩ := List.mem_map.mp hname
+    rw [← hcn, Cfg.nw_of_mem hwf hc]
+    exact hlt w hw c hc hcn
+
+/-- the event guard along a run, as a computable check -/
+def Runner.sameEvent (cfg : Cfg) (pol : Policy) : Runner → List Act → Bool
+  | _, [] => true
+  | r, a :: as => a.sameEventAt r && Runner.sameEvent cfg pol (r.step cfg pol a) as
+
+theorem guarded_of_sameEvent (cfg : Cfg) (pol : Policy) :
+    ∀ (acts : List Act) (r : Runner), (∀ a ∈ acts, a.CollectOnce) →
+      Runner.sameEvent cfg pol r acts = true → Runner.Guarded cfg pol True r acts
+  | [], _, _, _ => trivial
+  | a :: as, r, h, hs => by
+    simp only [Runner.sameEvent, Bool.and_eq_true] at hs
+    exact ⟨⟨h a (by simp), fun _ => hs.1⟩,
+      guarded_of_sameEvent cfg pol as _ (fun b hb => h b (by simp [hb])) hs.2⟩
+
 end Engine
